@@ -94,6 +94,9 @@ def shaped():
         res.append(funnel_shared(k, d))
     for sizes in ([4, 4, 2], [4, 4, 1], [3, 3, 4], [2, 4, 4], [4, 2, 4], [4, 4, 4]):
         res.append(funnel_pool(4, sizes))
+    # nested attacker sets of the attackers (sizes 2,4,8: product 64; 2,3,6: 36; 3,3,9: 81), one component of 10-13 arguments
+    for pool, sizes in ((8, [2, 4, 8]), (8, [8, 4, 2]), (6, [2, 3, 6]), (9, [3, 3, 9]), (8, [4, 4, 4, 1]), (8, [2, 2, 4, 8])):
+        res.append(funnel_pool(pool, sizes))
     res.append(funnel_pool(5, [5, 5, 1]))
     res.append(funnel_pool(5, [5, 5, 2]))
     res.append(union(funnel_shared(5, 2), funnel_shared(5, 2), "twofunnels32"))
